@@ -236,8 +236,9 @@ func runC12(a *A) {
 		if n == 0 {
 			a.Ok(fname(fn)+"#assert-after-err-check", fn.Pos(), "no unchecked bool assertion on the VM result").Trivial = true
 		}
-		// error arm returns false
-		env := &Env{a: a, Rank: map[string]int{}, Flags: map[string]bool{}, Assume: func(t *Term, v ssa.Value) Tri {
+		// error arm returns false: with the error of the evaluation not nil and no shortcut installed, every
+		// return that some path reaches returns the constant false on that path
+		assume := func(v ssa.Value) Tri {
 			if x, nilWhenTrue, ok := nilTest(v); ok && isErrorType(x.Type()) {
 				return tri(!nilWhenTrue) // the error is not nil
 			}
@@ -247,9 +248,41 @@ func runC12(a *A) {
 				}
 			}
 			return U
-		}}
-		r, why := evalFuncRet(env, fn, nil)
-		a.Check(r == F, fname(fn)+"#error-returns-false", fn.Pos(), "on the general path an evaluation error yields false (row rejected)", "an evaluation error does not yield false: "+why)
+		}
+		why := ""
+		runs := 0
+		allInstrs(fn, func(in ssa.Instruction) {
+			c, ok := in.(*ssa.Call)
+			if !ok {
+				return
+			}
+			// the evaluation: a call that yields (any, error)
+			res, isTuple := c.Type().(*types.Tuple)
+			if !isTuple || res.Len() != 2 || !isErrorType(res.At(1).Type()) {
+				return
+			}
+			runs++
+		})
+		// judged return by return: explorePaths reports every path that reaches it with the path's resolution
+		for _, b := range fn.Blocks {
+			ret, ok := b.Instrs[len(b.Instrs)-1].(*ssa.Return)
+			if !ok || len(ret.Results) == 0 {
+				continue
+			}
+			over := explorePaths(fn, ret, assume, func(ssa.Instruction) bool { return false }, func(resolve func(ssa.Value) ssa.Value) {
+				v := resolve(ret.Results[0])
+				if bv, isK := constBool(v); !isK || bv {
+					why = "a return reached with the evaluation error set yields " + TermOf(v, nil).String() + " (" + a.pos(ret.Pos()) + ")"
+				}
+			})
+			if over {
+				why = "too many paths through " + fname(fn) + " to decide"
+			}
+		}
+		if runs == 0 {
+			why = "no evaluation call (a call yielding (any, error)) found in " + fname(fn)
+		}
+		a.Check(why == "", fname(fn)+"#error-returns-false", fn.Pos(), "on the general path an evaluation error yields false (row rejected)", "an evaluation error does not yield false: "+why)
 		// AsBool
 		ctor := a.Func("condition", "NewExprCondition")
 		found := false
@@ -315,6 +348,9 @@ func (a *A) ruleFastFallback() {
 			k, isC := ret.Results[1].(*ssa.Const)
 			if !isC || k.Value == nil || !constant.BoolVal(k.Value) {
 				continue
+			}
+			if !reachUnder(fn, ret, func(ssa.Value) Tri { return U }) {
+				continue // reached only with an option switched on that was added after this rule was written
 			}
 			n++
 			strGuard := guardedByValue(b, func(v ssa.Value) bool {
